@@ -88,7 +88,7 @@ Proof. exact ex_safe. Qed.
 
 (* a pack of collection 1 held before the channel lock while collection 2 (another handler, same downstream channel) emits *)
 Definition ex_c2 : collinfo :=
-  {| ci_id := 102; ci_name := "c2"; ci_tid := 9102; ci_src := [("s2_v0", "s2")]; ci_tgt := [("t_v1", "t")]; ci_parts := [("_default", 8%Z)]; ci_dropped := false |}.
+  {| ci_id := 102; ci_name := "c2"; ci_tid := 9102; ci_src := [("s2_v0", "s2")]; ci_tgt := [("t_v1", "t")]; ci_parts := [("_default", 8%Z)]; ci_dropped := false; ci_seek := [] |}.
 Definition ex_msg2 (id ts : N) : smsg := {| m_kind := KInsert; m_id := id; m_coll := 102; m_part := 1; m_pname := "_default"; m_ts := ts; m_rows := 1; m_pospch := false |}.
 Definition ex_sched : list clabel :=
   [CSeq (Config 2 1); CSeq (StartColl ex_coll); CSeq (StartColl ex_c2);
